@@ -440,6 +440,12 @@ func sequence(r *ev.Run, c *ev.Case, seqNo int) {
 		return
 	}
 	defer c1.Close()
+	if seqNo%3 == 2 {
+		// a transport that hands out a frame in pieces (at most a few hundred bytes per read), in both directions
+		max := 1 + rng.Intn(700)
+		c1, c2 = wire.ShortReads(c1, max), wire.ShortReads(c2, max)
+		r.Count("sequences over a transport with short reads", 1)
+	}
 	served := make(chan error, 1)
 	go func() {
 		defer c2.Close()
